@@ -60,6 +60,91 @@ def histories(R, tier):
     return list(uniq.values())
 
 
+REPO_TESTS = {"quick": ["integration_tests/test_aero.py", "integration_tests/test_struct.py", "integration_tests/test_aero_opt_wavedrag.py"],
+              "thorough": ["integration_tests/test_aero.py", "integration_tests/test_aerostruct.py", "integration_tests/test_multipoint_aero.py", "integration_tests/test_struct.py",
+                           "integration_tests/test_aero_opt_wavedrag.py", "integration_tests/test_aerostruct_wingbox_opt.py", "integration_tests/test_aero_opt_no_symmetry.py"]}
+
+
+def _validate(events, label):
+    import os
+    import shutil
+    import tempfile
+
+    from .. import trace
+
+    ev = trace.lifecycle_events(events)
+    d = tempfile.mkdtemp(prefix="oasverif.trace.", dir="/dev/shm" if os.path.isdir("/dev/shm") else None)
+    try:
+        path = os.path.join(d, "trace.json")
+        with open(path, "w") as f:
+            json.dump(ev, f)
+        res = tlc.run("TraceLifecycle", "TraceLifecycle.cfg", workers=1, env={"TRACE_FILE": path}, timeout=1800)
+    finally:
+        shutil.rmtree(d, ignore_errors=True)
+    rej = tlc.emitted(res, "REJECT")
+    acc = tlc.emitted(res, "ACCEPT")
+    if res["violated"] and not rej:
+        raise MachineryError("TraceLifecycle failed without a verdict on %s: %s" % (label, res["out"][-1500:]))
+    return {"label": label, "events": len(ev), "accepted": bool(acc) and not rej, "reject": rej[0] if rej else None, "repeated": acc[0]["repeated"] if acc else 0, "states": res["distinct"]}
+
+
+def _trace_history_job(a):
+    """Mode T on the harness's own driver: one long random history recorded on a live Problem."""
+    from .. import trace
+
+    kind, hist = a
+    L = lifecycle.Live(kind)
+    ran = None
+    with trace.Recorder("", jac=True) as rec:
+        L.set_point("p0")
+        for ev in hist:
+            if ev[0] == "set":
+                L.set_point(ev[1])
+            elif ev[0] == "run":
+                L.run()
+                ran = L.pt
+            elif ev[0] == "totals" and ran == L.pt:
+                L.totals()
+            elif ev[0] == "check" and ran == L.pt:
+                L.check()
+    return _validate(rec.events, "history:%s:%s" % (kind, json.dumps(hist)))
+
+
+def _trace_repo_job(rel):
+    """Mode T on the repository's own tests used as drivers (their assertions stay what they are; every
+    component execution they cause is validated against the specification)."""
+    import contextlib
+    import importlib.util
+    import io
+    import os
+    import tempfile
+    import unittest
+
+    from .. import trace
+    from ..common import REPO
+
+    path = os.path.join(REPO, "tests", rel)
+    cwd = os.getcwd()
+    tmp = tempfile.mkdtemp(prefix="oasverif.cwd.")
+    os.chdir(tmp)
+    try:
+        spec = importlib.util.spec_from_file_location("oasverif_driver_" + os.path.basename(rel)[:-3], path)
+        mod = importlib.util.module_from_spec(spec)
+        with trace.Recorder("", jac=True) as rec, contextlib.redirect_stdout(io.StringIO()), contextlib.redirect_stderr(io.StringIO()):
+            spec.loader.exec_module(mod)
+            suite = unittest.defaultTestLoader.loadTestsFromModule(mod)
+            result = unittest.TextTestRunner(stream=io.StringIO(), verbosity=0).run(suite)
+    finally:
+        os.chdir(cwd)
+        import shutil
+
+        shutil.rmtree(tmp, ignore_errors=True)
+    v = _validate(rec.events, "repo:" + rel)
+    v["tests_run"] = result.testsRun
+    v["test_failures"] = len(result.failures) + len(result.errors)
+    return v
+
+
 def run(tier, only=None):
     R = Run("C03", tier, "model_checking")
     kinds = [k for k in KINDS[tier] if not only or k in only]
@@ -86,6 +171,18 @@ def run(tier, only=None):
             R.violation(key, {"kind": kind, "history": h, "start": "p0", "deviations": devs})
             if i >= nreg:
                 confirmed.add(json.dumps(h))
+    # mode T: recorded executions validated by TraceLifecycle
+    long_h = sorted((h for h in hs if len(h) >= DEPTH[tier]), key=lambda h: -sum(1 for e in h if e[0] in ("totals", "check")))[: (4 if tier == "quick" else 24)]
+    tjobs = [(k, h) for k in kinds[:2] for h in long_h]
+    tres = check_exc(pmap(_trace_history_job, tjobs)) + check_exc(pmap(_trace_repo_job, REPO_TESTS[tier]))
+    traces = []
+    for v in tres:
+        R.replayed += 1
+        R.tlc["states"] += v["states"]
+        traces.append({k: v[k] for k in ("label", "events", "accepted", "repeated") if k in v})
+        R.case(["trace", v["label"]], v["repeated"] > 0, sample={"trace": v["label"][:120], "events": v["events"], "repeated_keys": v["repeated"], "accepted": v["accepted"]} if v["label"].startswith("repo") else None, section="trace_validation")
+        if not v["accepted"]:
+            R.violation("trace:%s:%s" % (v["reject"]["comp"], v["reject"]["clause"]), {"label": v["label"], "reject": v["reject"]})
     imprecise = [c for c in cex if json.dumps(c["h"]) not in confirmed]
     R.assume(
         "three concrete design points differing in every design variable and flight condition stand for 'any point'",
@@ -99,6 +196,7 @@ def run(tier, only=None):
         "model_counterexamples_confirmed_on_code": len(confirmed),
         "extraction_imprecise": [{"history": c["h"], "culprits": c["culprits"]} for c in imprecise],
         "histories": len(hs),
+        "traces_validated": traces,
         "kinds": kinds,
         "component_table": {c["class"]: {"caches": c["caches"], "lu": c["lu_refresh"]} for c in tab["components"] if c["caches"] or c["lu"]},
         "raw_accumulated_blocks": {c["class"]: [k for k, b in c["blocks"].items() if b["policy"] == "accum_raw"] for c in tab["components"] if any(b["policy"] == "accum_raw" for b in c["blocks"].values())},
